@@ -117,6 +117,8 @@ impl VerifyQueue {
     /// Remove a tx from the queue
     pub fn remove_tx(&mut self, id: &ProposalShortId) -> Option<Entry> {
         self.inner.remove_by_id(id).map(|e| {
+            #[cfg(feature = "verif-hooks")]
+            crate::verif::work(7);
             let tx_size = e.inner.tx.data().serialized_size_in_block();
             self.total_tx_size = self.total_tx_size.checked_sub(tx_size).unwrap_or_else(|| {
                 error!(
@@ -152,6 +154,9 @@ impl VerifyQueue {
     /// Returns the first entry in the queue and remove it
     pub fn pop_front(&mut self, only_small_cycle: bool) -> Option<Entry> {
         if let Some(short_id) = self.peek(only_small_cycle) {
+            // (verif hooks: a popped entry is still outstanding until its worker has finished)
+            #[cfg(feature = "verif-hooks")]
+            crate::verif::work(6);
             self.remove_tx(&short_id)
         } else {
             None
@@ -214,6 +219,8 @@ impl VerifyQueue {
             );
             self.total_tx_size
         });
+        #[cfg(feature = "verif-hooks")]
+        crate::verif::work(6);
         self.ready_rx.notify_one();
         Ok(true)
     }
@@ -225,6 +232,10 @@ impl VerifyQueue {
 
     /// Clears the map, removing all elements.
     pub fn clear(&mut self) {
+        #[cfg(feature = "verif-hooks")]
+        for _ in 0..self.inner.len() {
+            crate::verif::work(7);
+        }
         self.inner.clear();
         self.total_tx_size = 0;
         self.shrink_to_fit();
